@@ -249,7 +249,7 @@ pub fn c14_profile() -> Profile {
         body_garbage: 150,
         body_bitflip: 120,
         body_truncate: 80,
-        etag_tamper: 20,
+        etag_tamper: 50,
         replay: 20,
         forged: 20,
         byzantine_doc: 80,
@@ -521,6 +521,7 @@ fn c13_batches(tier: &str) -> Vec<Batch> {
     p.latency = [5, 3, 2];
     p.installer.max_progress = 6;
     p.installer.cancel_progress_permille = 150;
+    p.installer.concurrent_progress_permille = 150;
     p.neighbour_permille = 300;
     p.srv.app_outcome = [25, 65, 4, 3, 3];
     p.drop_stream_permille = 0;
@@ -682,6 +683,9 @@ pub fn c06_profile() -> Profile {
     };
     p.bad_url_permille = 30;
     p.policy.check = [95, 5, 0, 0, 0];
+    // the embedder changes an app's channel hint while a check may be between two attempts
+    p.neighbour_permille = 400;
+    p.neighbour_mutates_permille = 800;
     p
 }
 
